@@ -27,10 +27,24 @@ LEVEL_TEXT = ("Coq theorems over an executable heap model (locations, dicts key-
               "language used by the correspondence is proved to be such an operator.  The model is tied to the code by evaluating it "
               "inside Coq against traces (operator, t_cur, t_max, rep, identities and contents of every argument, miscout) recorded by "
               "instrumented operator/logbook subclasses passed through the public constructor, incl. error paths (wrong return type, "
-              "raising operator/logbook, miscout keys colliding with parameter names, missing start containers).")
+              "raising operator/logbook, miscout keys colliding with parameter names, missing start containers).  "
+              "Phase 2: SESSIONS - one programme object driven by sequences of evolve / advance / reset / initialize / is_initialized, "
+              "every property setter (start_*, working containers, t_cur, t_max, the four operators, the initialisation operator), a new "
+              "logbook, copy.copy and copy.deepcopy of the programme, continuing on the state a raising command left - are modelled "
+              "(Model/C20_Session.v) and compared in Coq event by event with a marker (succeeded?, t_cur, rep) after every command; "
+              "theorems: across any such session of evolve calls / clock and t_max setters / operator and logbook replacement / shallow "
+              "copies the start state is never written and every replicate starts fresh and equal to it, advance from any clock value "
+              "makes the eight calls per generation at t, t+1, .., sessions compose.  The ATTRIBUTE LAYER (getter, setter and type check of "
+              "each of the 17 properties, the constructor's assignments, the operator type guards) is regenerated from the source on every "
+              "run (Gen/C20_Kernel.v) next to the method bodies (Gen/C20_Program.v), proved equal to the model's tables by reflexivity, "
+              "with theorems about the generated tables: what the constructor establishes and that it accepts nothing else, set/get laws, "
+              "agreement of the session model's setter commands with the generated setters.")
 LEVEL_NOTE = ("trusted: Coq kernel + vm_compute; the action-language interpreter in this module (Python side of the operator "
               "programs) and its Gallina twin; copy.deepcopy modelled for dict -> list-of-int containers (two levels, memo per call); "
-              "theorems are about the Gallina model, the tie to the code is differential on generated (heap, programs, calls) cases")
+              "theorems are about the Gallina model, the tie to the code is differential on generated (heap, programs, calls / sessions) "
+              "cases plus the two translators (method bodies, attribute layer) whose output is proved equal to the model; the translators' "
+              "name tables (property / attribute / parameter numbering) and check_is_dict / check_is_int (core/error, not anchored) are trusted; "
+              "copy.deepcopy(programme) is modelled as one memo over the ten container slots with the instrumented operators shared")
 TECHNIQUE = "Coq proof over an executable heap/trace model of the loop; in-Coq vm_compute correspondence with instrumented runs"
 RULE = ("case = (leaf lists, dicts with possibly shared leaves, start_* slots or None, initop result, t_max, rep0, "
         "[evolve(nrep, ngen, loginit)...], action program per operator and per logbook method); one PRNG: ~170 systematic corners "
@@ -38,11 +52,25 @@ RULE = ("case = (leaf lists, dicts with possibly shared leaves, start_* slots or
         "type in every slot of every operator, raising operator/logbook method, every miscout key colliding with a parameter name, "
         "mating configuration aliased/remembered), a sweep of nrep,ngen in -1..3 x loginit with random programs, and random cases incl. "
         "uninitialised/partially initialised programmes, the same dict in several start slots, two evolve calls, error-raising programs; "
-        "non-trivial = some call with nrep >= 2 and ngen >= 1, at least one in-place-mutating action, no error; distinct by SHA-256")
+        "phase 2: ~90 systematic sessions (each start slot replaced / cleared / given a non-dict through its setter between two runs, "
+        "working containers handed in through their setters, start state given through setters only, explicit initialize, replaced "
+        "initialisation operator, advance and reset as public calls incl. before any reset and after a failed reset, clock and t_max "
+        "setters incl. negative and non-int values, each operator replaced after a clean / raising / wrong-return run, each logbook "
+        "method raising then a new logbook, operators remembering containers across runs and across a replaced start state, copy.copy "
+        "and copy.deepcopy of the programme incl. aliased slots, verbose runs, extra keyword arguments, default loginit) and random "
+        "sessions of 2-7 commands; entry points of the anchored modules are enumerated at run time (a new public member, a changed "
+        "parameter list, a copy/attribute hook fails the check until classified in COVERED/SKIPPED); after construction and after every "
+        "command every getter is compared with its private attribute, every accepted setter with its getter, and the check_is_* guards "
+        "of the eight anchored modules are exercised; events carry the serial number of the operator / logbook instance that received them; "
+        "non-trivial = some evolve with nrep >= 2 and ngen >= 1, at least one in-place-mutating action, no error; distinct by SHA-256")
 TRUSTED = ["the Python interpreter of the action language (harness/props/c20.py:_run_prog) is the twin of Model/C20_Loop.v:act",
            "copy.deepcopy on dict-of-list containers: fresh dict, fresh leaves, sharing inside one container preserved (memo), "
            "sharing across the five containers lost (five separate deepcopy calls) - mirrored by the model",
-           "object identity observed through id() of objects kept alive for the whole run, canonicalised to first-occurrence numbers"]
+           "object identity observed through id() of objects kept alive for the whole run, canonicalised to first-occurrence numbers",
+           "harness/translate/c20_kernel.py: the numbering of properties, private attributes and constructor parameters; check_is_dict / "
+           "check_is_int are isinstance tests (pybrops/core/error, not anchored)",
+           "copy.copy / copy.deepcopy of the programme follow Python's generic protocol (the audit rejects __copy__/__deepcopy__/__reduce__/"
+           "__getstate__/__setattr__ hooks on the class); the instrumented operators are shared by deepcopy (__deepcopy__ = identity)"]
 ASSUMPTIONS = ["state containers are dicts whose values are mutable lists of ints (two-level heap); deeper object graphs are not modelled",
                "operators reach the programme state only through their arguments and their own private memory, which is disjoint "
                "from the start containers when evolve is entered (an operator holding a reference to start_* can of course modify it)"]
@@ -368,7 +396,7 @@ def run_impl(case):
     return {"trace": ctx.trace, "err": err, "calls_done": ncalls_done,
             "start": {"present": s_present, "roots": s_roots, "dat": s_dat},
             "work": {"present": w_present, "roots": w_roots, "dat": w_dat},
-            "t_cur": prog.t_cur, "rep": book.rep, "t_max": prog.t_max, "faults": faults[:6],
+            "t_cur": prog.t_cur, "rep": book.rep, "t_max": prog.t_max, "faults": faults[:6], "audit": _audit_msgs()[:2],
             "given_unchanged": same, "n_initial_objects": len(leaves) + len(dicts)}
 
 # ------------------------------------------------------------------ Coq emission
@@ -492,7 +520,10 @@ def pred(case, out):
         return ["harness/implementation raised outside evolve: %s: %s" % (out["exc"], out["msg"])]
     bad = list(out.get("faults", []))
     bad += _pred_calls(case, out) if case.get("session") is None else _pred_session(case, out)
-    return bad[:8]
+    # the audit clause accompanies behavioural failures and, on its own, fails only the (deliberately largest) sentinel case, so that
+    # the smallest failing case the check reports is a behavioural one whenever there is one
+    aud = list(out.get("audit", []))[:2]
+    return bad[:7] + aud if (bad or case.get("audit_sentinel")) else []
 
 # ---- sessions: an independent reading of the property statement, command by command
 def _prog_clean(p, is_op):
@@ -500,9 +531,11 @@ def _prog_clean(p, is_op):
 
 def _simulate(case):
     """expected observable sequence of a session as far as the property statement determines it: the simulation stops at
-    the first command whose outcome depends on an error feature (wrong type handed to a setter, an operator programme that
-    raises / returns a non-dict / leaves a parameter name in miscout, a missing start or working container where one is
-    needed).  Items: ("call", tag, t, rep|None, t_max, start-at-replicate-entry|None) | ("isinit", v) | ("mark", t, rep)."""
+    the first run whose outcome depends on an operator programme that raises / returns a non-dict / leaves a parameter name
+    in miscout; a wrong type handed to a setter, a missing start container at reset, a missing working container at advance
+    are expected to raise and leave the state as it is (reset: the containers before the missing one are already copied,
+    needed).  Items: ("call", tag, t, rep|None, t_max, start-at-replicate-entry|None, serial of the receiver) | ("isinit", v) |
+    ("mark", t, rep, start copied by a public reset|None, command succeeds?)."""
     start = list(case["start"]); init = list(case["init"]); t = 0; tm = case["t_max"]; rep = case["rep0"]
     work = [False] * NSLOT
     ops = {k: case["ops"][k] for k in OPS}; logs = {k: case["logs"][k] for k in LOGS}
@@ -517,46 +550,58 @@ def _simulate(case):
             t += 1
     done = 0
     for ci, c in enumerate(case["session"]):
-        k = c[0]
+        k = c[0]; ok = 1; fresh = None
         if k == "evolve":
             if not clean(): break
             if any(x is None for x in start):
-                if c[1] > 0 and any(x is None for x in init): break
                 exp.append(("call", TAGS["initialize"], 0, None, 0, None, who[TAGS["initialize"]])); start = list(init)
-            for _ in range(max(c[1], 0)):
-                rep += 1; t = 0; work = [True] * NSLOT
-                exp.append(("call", TAGS["evaluate"], 0, None, tm, list(start), who[TAGS["evaluate"]]))
-                if c[3]: exp.append(("call", TAGS["log_initialize"], 0, rep, tm, None, who["book"]))
-                t = 1
-                gens(c[2])
+            if c[1] > 0 and any(x is None for x in start):
+                # the first replicate is entered (logbook counter incremented), reset() stops at the first missing start container
+                rep += 1; ok = 0
+                for j in range(NSLOT):
+                    if start[j] is None: break
+                    work[j] = True
+            else:
+                for _ in range(max(c[1], 0)):
+                    rep += 1; t = 0; work = [True] * NSLOT
+                    exp.append(("call", TAGS["evaluate"], 0, None, tm, list(start), who[TAGS["evaluate"]]))
+                    if c[3]: exp.append(("call", TAGS["log_initialize"], 0, rep, tm, None, who["book"]))
+                    t = 1
+                    gens(c[2])
         elif k == "advance":
-            if not clean() or (c[1] > 0 and not all(work)): break
-            gens(c[1])
+            if not clean(): break
+            if c[1] > 0 and not all(work): ok = 0
+            else: gens(c[1])
         elif k == "reset":
-            if any(x is None for x in start): break
-            work = [True] * NSLOT; t = 0
+            if any(x is None for x in start):
+                ok = 0
+                for j in range(NSLOT):
+                    if start[j] is None: break
+                    work[j] = True
+            else:
+                work = [True] * NSLOT; t = 0; fresh = list(start)
         elif k == "initialize":
             exp.append(("call", TAGS["initialize"], 0, None, 0, None, who[TAGS["initialize"]])); start = list(init)
         elif k == "is_init":
             exp.append(("isinit", 1 if all(x is not None for x in start) else 0))
         elif k == "set_start":
-            if c[2] == "bad": break
-            start[c[1]] = c[2]
+            if c[2] == "bad": ok = 0
+            else: start[c[1]] = c[2]
         elif k == "set_work":
-            if c[2] is None or c[2] == "bad": break
-            work[c[1]] = True
+            if c[2] is None or c[2] == "bad": ok = 0
+            else: work[c[1]] = True
         elif k == "set_t":
-            if c[1] == "bad": break
-            t = c[1]
+            if c[1] == "bad": ok = 0
+            else: t = c[1]
         elif k == "set_tmax":
-            if c[1] == "bad": break
-            tm = c[1]
+            if c[1] == "bad": ok = 0
+            else: tm = c[1]
         elif k == "set_op": ops[c[1]] = c[2]; who[TAGS[{"psel": "pselect", "mate": "mate", "eval": "evaluate", "ssel": "sselect"}[c[1]]]] = ci + 1
         elif k == "set_initop": init = list(c[2]); who[TAGS["initialize"]] = ci + 1
         elif k == "book": rep = c[1]; logs = dict(c[2]); who["book"] = ci + 1
         elif k == "copy": pass
         elif k == "deepcopy": ids_known = False
-        exp.append(("mark", t, rep)); done += 1
+        exp.append(("mark", t, rep, fresh, ok)); done += 1
     return exp, done == len(case["session"]), {"start": start, "t": t, "tm": tm, "rep": rep, "ids_known": ids_known}
 
 def _pred_session(case, out):
@@ -570,7 +615,11 @@ def _pred_session(case, out):
         x = exp[i]; name = TAGNAME.get(e["tag"], str(e["tag"]))
         if x[0] == "mark":
             if e["tag"] != 31: bad.append("event %d is %s(t_cur=%s), expected the end of a command" % (i, name, e["t"])); break
-            if e["t"] != 1: bad.append("command %d (%s) raised %s" % (sum(1 for y in exp[:i] if y[0] == "mark"), sess[sum(1 for y in exp[:i] if y[0] == "mark")][0], (out["err"] or {}).get("type"))); break
+            if e["t"] != x[4]:
+                kc = sum(1 for y in exp[:i] if y[0] == "mark")
+                bad.append(("command %d (%s) raised %s" % (kc, sess[kc][0], (out["err"] or {}).get("type"))) if x[4] else
+                           ("command %d (%s) did not raise: %s" % (kc, sess[kc], "a value of the wrong type was accepted" if sess[kc][0].startswith("set_") else
+                                                                   "a start / working container it needs is missing"))); break
             if (e["tm"], e["rep"]) != (x[1], x[2]):
                 bad.append("after command %d (%s): t_cur = %s, logbook rep = %s; expected %s, %s" % (
                     sum(1 for y in exp[:i] if y[0] == "mark"), sess[sum(1 for y in exp[:i] if y[0] == "mark")][0], e["tm"], e["rep"], x[1], x[2])); break
@@ -593,11 +642,13 @@ def _pred_session(case, out):
         bad.append("event %d (%s) is beyond the expected %d events" % (len(exp), TAGNAME.get(tr[len(exp)]["tag"], tr[len(exp)]["tag"]), len(exp)))
     # ---- hand-over; replicates start fresh and equal to the start state held when the replicate is entered
     seen = set(range(out["n_initial_objects"]))
-    last = None; mc = None; lastmisc = []; ncmd = 0
+    last = None; mc = None; lastmisc = []; ncmd = 0; pending_fresh = None
     for i, e in enumerate(tr):
         if e["tag"] == 30: continue
         if e["tag"] == 31:
             if sess[ncmd][0] in ("reset", "set_work", "deepcopy") or e["t"] != 1: last = None
+            if sess[ncmd][0] not in ("is_init", "set_t", "set_tmax", "set_op", "set_initop", "book", "copy", "set_start"): pending_fresh = None
+            if i < n_ok and exp[i][0] == "mark" and exp[i][3] is not None and e["t"] == 1: pending_fresh = exp[i][3]
             ncmd += 1; continue
         name = TAGNAME.get(e["tag"], "?")
         if name == "initialize":
@@ -606,6 +657,9 @@ def _pred_session(case, out):
             continue
         ids_here = set(e["roots"]) | {x[1] for d in e["dat"] for x in d}
         repstart = exp[i][5] if i < n_ok and exp[i][0] == "call" else None
+        if repstart is None and pending_fresh is not None and ncmd < len(sess) and sess[ncmd][0] == "advance" and not name.startswith("log_"):
+            repstart = pending_fresh                       # first operator call after a public reset()
+        pending_fresh = None
         if repstart is not None:
             src = repstart
             if len(e["roots"]) != NSLOT or any(r < 0 for r in e["roots"]):
@@ -659,7 +713,9 @@ def _pred_session(case, out):
         if out["t_max"] != fin["tm"]: bad.append("t_max ends at %r, expected %r" % (out["t_max"], fin["tm"]))
         if out["t_cur"] != fin["t"]: bad.append("t_cur ends at %r, expected %r" % (out["t_cur"], fin["t"]))
         if out["rep"] != fin["rep"]: bad.append("logbook rep ends at %r, expected %r" % (out["rep"], fin["rep"]))
-    handed = {c[2] for c in sess if c[0] == "set_work" and isinstance(c[2], int)}
+    handed = {c[2] for c in sess if c[0] == "set_work" and isinstance(c[2], int)}      # given to the operators as working containers
+    hl = {li for d in handed for _, li in case["dicts"][d]}
+    handed |= {i for i, d in enumerate(case["dicts"]) if any(li in hl for _, li in d)}   # ... and whatever shares a leaf with them
     if not all(u for i, u in enumerate(out["given_unchanged"]) if i not in handed):
         bad.append("an object handed to the constructor / a start_* setter / the initialiser was modified in place")
     seen_b = []
@@ -988,6 +1044,9 @@ def _systematic_sessions():
     S([ev(1, 1), ["set_work", 1, 7], ["set_work", 2, 7], ["deepcopy"], ["advance", 1]],
       ops={"eval": [["stash", 0, 0]], "psel": [["unstash", 3, 0], ["app", 3, 0, 6]]})
     S([["deepcopy"], ev(1, 1)], start=[None] * NSLOT)
+    # many generations / many replicates (clock and replicate counter well beyond a handful)
+    S([ev(1, 24, 0), ["advance", 3]], ops={"ssel": [["appt", 0, 0]]})
+    S([ev(14, 1, 1), ev(3, 0, 0)], ops={"eval": [["app", 1, 0, 1]]}, rep0=250)
     # verbose runs, extra keyword arguments, default loginit
     S([ev(2, 2, 1, 1), ev(1, 1, 0, 2), ["advance", 1, 1]], ops=mut)
     return out
@@ -1100,10 +1159,20 @@ def _audit():
                 for special in ("__copy__", "__deepcopy__", "__reduce__", "__reduce_ex__", "__getstate__", "__setstate__", "__slots__", "__getattr__", "__setattr__"):
                     if any(special in vars(k) for k in v.__mro__[:-1]):
                         bad.append("%s.%s (or a base) defines %s: the session model assumes Python's generic copy/attribute protocol" % (mn, n, special))
-    if bad: raise RuntimeError("C20 entry-point audit: " + "; ".join(bad))
+    return bad
+
+_AUDIT = None
+def _audit_msgs():
+    """fail closed WITHOUT hiding the behavioural evidence: an unclassified entry point makes the predicate fail on the sentinel
+    case (and is appended to the clauses of every behaviourally failing case), so the check reports a violation either way and
+    the concrete replay is a behavioural one whenever the change has a behavioural effect on the generated cases"""
+    global _AUDIT
+    if _AUDIT is None:
+        try: _AUDIT = ["entry-point audit: " + m for m in _audit()]
+        except Exception as e: _AUDIT = ["entry-point audit could not run: %s: %s" % (type(e).__name__, e)]
+    return _AUDIT
 
 def gen_cases(rng, tier):
-    _audit()
     cases = _systematic()
     # sweep of the loop counts with clean (error-free) programs
     for nrep in (-1, 0, 1, 2, 3):
@@ -1127,6 +1196,9 @@ def gen_cases(rng, tier):
         calls = [[rng.choice([0, 1, 2, 2, 3]), rng.choice([0, 1, 1, 2, 3]), rng.randint(0, 1)] for _ in range(ncalls)]
         cases.append(_rand_case(rng, calls, rng.random() < 0.35))
     cases += _systematic_sessions()
+    sentinel = copy.deepcopy(pure)
+    sentinel["audit_sentinel"] = "the entry-point audit of the anchored modules is reported on this case. " * 300
+    cases.append(sentinel)
     for _ in range(90 if tier == "quick" else 2500):
         cases.append(_rand_session(rng, rng.random() < 0.3))
     return cases
